@@ -547,7 +547,11 @@ def copyhfe_jobs(Job, cfg=CFG_NDEBUG, tier="quick"):
             Job("D_hfe_side_blocks_%s" % cfg[0], "harness/dfs_sideblocks.c", "h_side_blocks", enforce=["hfe_side_blocks"], loops=True,
                 defines=list(cfg[1]), extract=ext(["hfe_block_sizes", "hfe_side_blocks"]), tier=tier, cover=True, solver="portfolio"),
             Job("D_copy_hfe_v1_%s" % cfg[0], "harness/dfs_copyhfe.c", "h_copy_hfe", enforce=["copy_hfe"], replace=["is_hfe3_opcode"], loops=True,
-                defines=list(cfg[1]), extract=ext(g), tier=tier, cover=True, solver="portfolio")]
+                defines=list(cfg[1]), extract=ext(g), tier=tier, cover=True, solver="portfolio",
+                cbmc=["--unwindset", "h_fill_tables.0:258", "--unwinding-assertions"]),
+            Job("D_copy_hfe_v3_opcodes_%s" % cfg[0], "harness/dfs_copyhfe.c", "h_copy_hfe3", enforce=["copy_hfe"], replace=["is_hfe3_opcode"], loops=True,
+                defines=list(cfg[1]), extract=ext(g), tier=tier, cover=True, solver="portfolio", timeout=1200,
+                cbmc=["--unwindset", "h_fill_tables.0:258", "--unwinding-assertions"])]
 
 
 NAMES_GROUP = ["byte_to_ascii7", "CatalogEntry_directory", "CatalogEntry_name", "ci_comp", "case_insensitive_less", "case_insensitive_equal", "CatalogEntry_has_name"]
